@@ -298,7 +298,7 @@ func init() {
 		if _, both := ref["db.Marshal"]; both && ref["db.Bytes"] != ref["db.Marshal"] {
 			diffs = append(diffs, fmt.Sprintf("fresh database: Bytes() returns %s, Marshal() writes %s", ref["db.Bytes"], ref["db.Marshal"]))
 		}
-		_, upd, err := signature.SignEFIVariable(efivar.Db, db, key, cert)
+		desc, upd, err := signature.SignEFIVariable(efivar.Db, db, key, cert)
 		if err != nil {
 			return "err", "signvar"
 		}
@@ -537,6 +537,54 @@ func init() {
 				}
 			}
 		}
+		// THE CALLER GOES ON (last of all: the database is changed here).  The signed-update value is one value; Marshal
+		// and Bytes on it return identical results "every time", i.e. for as long as the caller holds it - also after the
+		// caller went on with the OTHER things it holds: the descriptor struct that SignEFIVariable returned next to the
+		// value (inspected, re-stamped, reused as the receiver of an Unmarshal) and the database object it had signed
+		// (the next hash appended, an entry removed, the next update signed from the same object).  None of these is a
+		// call on the signed-update value.
+		if g := atoi(a["goeson"]); g > 0 {
+			var fb bytes.Buffer
+			o.upd.Marshal(&fb)
+			first := append([]byte{}, o.upd.Bytes()...)
+			if !bytes.Equal(fb.Bytes(), first) || h8(first) != ref["upd.Bytes"] {
+				diffs = append(diffs, fmt.Sprintf("before the caller goes on: upd.Bytes %s, upd.Marshal %s, first result %s", h8(first), h8(fb.Bytes()), ref["upd.Bytes"]))
+			}
+			steps := []struct {
+				what string
+				f    func()
+			}{
+				{"changed the Time field of the descriptor struct that SignEFIVariable returned next to the value", func() { desc.Time.Year, desc.Time.Second = desc.Time.Year+1, (desc.Time.Second+1)%60 }},
+				{"decoded another descriptor into the descriptor struct that SignEFIVariable returned next to the value (Unmarshal)", func() {
+					var ob bytes.Buffer
+					other := signature.NewEFIVariableAuthentication2()
+					other.Marshal(&ob)
+					desc.Unmarshal(&ob)
+				}},
+				{"appended the next hash to the database object that was signed", func() {
+					h := make([]byte, 32)
+					rng.Read(h)
+					o.db.Append(signature.CERT_SHA256_GUID, guidFromWire(o.owners[0]), h)
+				}},
+				{"signed the next update from the same database object", func() { signature.SignEFIVariable(efivar.Db, o.db, key, cert) }},
+				{"removed an entry from the database object that was signed", func() {
+					o.db.Remove(signature.CERT_SHA256_GUID, guidFromWire(o.last[0]), o.last[1])
+				}},
+			}
+			for k := range steps {
+				st := steps[(k+g)%len(steps)]
+				if pan, msg := safely(st.f); pan {
+					_ = msg // what the step itself does is not this property's business
+					continue
+				}
+				var b bytes.Buffer
+				o.upd.Marshal(&b)
+				if got := o.upd.Bytes(); !bytes.Equal(got, first) || !bytes.Equal(b.Bytes(), first) {
+					diffs = append(diffs, fmt.Sprintf("the caller went on and %s - no call on the signed-update value - and the value now encodes differently: upd.Bytes %s (%d bytes), upd.Marshal %s (%d bytes), every earlier call %s (%d bytes)", st.what, h8(got), len(got), h8(b.Bytes()), b.Len(), h8(first), len(first)))
+					break
+				}
+			}
+		}
 		refs := []string{}
 		for _, m := range pureMethods {
 			refs = append(refs, m+"="+ref[m])
@@ -628,7 +676,7 @@ func c19Eval(c *Ctx, cs Case) {
 	}
 	res := w.Do("pure.run", map[string]string{"verif": c.VerifDir, "img": hx(img), "seed": fmt.Sprint(cs.I("seed2")), "nseq": fmt.Sprint(cs.I("nseq")),
 		"goroutines": fmt.Sprint(cs.I("goroutines")), "ncalls": fmt.Sprint(cs.I("ncalls")), "reparse": fmt.Sprint(cs.I("reparse")), "decoded": fmt.Sprint(cs.I("decoded")), "dbentries": fmt.Sprint(cs.I("dbentries")), "nsched": fmt.Sprint(cs.I("nsched")), "own": fmt.Sprint(cs.I("own")),
-		"dbempty": fmt.Sprint(cs.I("dbempty")), "dbemptypos": fmt.Sprint(cs.I("dbemptypos")), "dbpem": fmt.Sprint(cs.I("dbpem")), "pause": fmt.Sprint(cs.I("pause"))}, 120*time.Second)
+		"dbempty": fmt.Sprint(cs.I("dbempty")), "dbemptypos": fmt.Sprint(cs.I("dbemptypos")), "dbpem": fmt.Sprint(cs.I("dbpem")), "pause": fmt.Sprint(cs.I("pause")), "goeson": fmt.Sprint(cs.I("goeson"))}, 120*time.Second)
 	c.Count(cs.Key(), true, fmt.Sprintf("pure/g%d/db%d/img=%s/emptylist=%s/pem-entries=%d/pause=%dms/%s", cs.I("goroutines"), 2+cs.I("dbentries"),
 		[]string{"signed-in-place", "reparsed", "reparsed-last-certificate-unpadded"}[cs.I("reparse")%3],
 		[]string{"none", "emptied-in-place", "appended-empty"}[cs.I("dbempty")%3]+[]string{"", "/front", "/middle", "/end"}[min(cs.I("dbempty"), 1)*(1+cs.I("dbemptypos")%3)], cs.I("dbpem"), cs.I("pause"), res.Class))
@@ -669,24 +717,25 @@ func c19Gen(c *Ctx) {
 		cs["dbempty"] = int64((i + 1) % 3)        // a list without signatures: emptied in place; appended empty; none
 		cs["dbemptypos"] = int64((2*i + i/3) % 3) // in front of, between, behind the other lists
 		cs["dbpem"] = int64([]int{0, 1, 0, 2}[i%4])  // every second database also holds one / two X.509 entries whose bytes are PEM text
+		cs["goeson"] = int64(1 + i%5)              // at the very end the caller goes on with the descriptor and the database (which step first)
 		c19Eval(c, cs)
 	}
-	c19Eval(c, Case{"op": "pure", "path": "authenticode/testdata/test.pecoff", "seed2": int64(7), "nseq": int64(40), "goroutines": int64(8), "ncalls": ncalls, "reparse": int64(0), "decoded": int64(1), "dbentries": int64(198), "nsched": int64(120), "own": int64(1), "dbpem": int64(1)})
+	c19Eval(c, Case{"op": "pure", "path": "authenticode/testdata/test.pecoff", "seed2": int64(7), "nseq": int64(40), "goroutines": int64(8), "ncalls": ncalls, "reparse": int64(0), "decoded": int64(1), "dbentries": int64(198), "nsched": int64(120), "own": int64(1), "dbpem": int64(1), "goeson": int64(3)})
 	// the repository binary once more, re-parsed from bytes whose last certificate is not padded, with the shorter
 	// schedule sweep; and small runs (no scheduled rounds) over the product of: kind of the list without signatures x
 	// its position x how the other lists came about, the image alternating between the two re-parsed forms
 	c19Shared = c19Worker(c)
 	defer func() { c19Shared.Close(); c19Shared = nil }()
-	c19Eval(c, Case{"op": "pure", "path": "authenticode/testdata/test.pecoff", "seed2": int64(11), "nseq": int64(40), "goroutines": int64(4), "ncalls": ncalls, "reparse": int64(2), "decoded": int64(0), "dbentries": int64(5), "nsched": int64(c.P(40, 120)), "own": int64(1), "dbempty": int64(1), "dbemptypos": int64(1), "dbpem": int64(2), "pause": int64(1200)})
+	c19Eval(c, Case{"op": "pure", "path": "authenticode/testdata/test.pecoff", "seed2": int64(11), "nseq": int64(40), "goroutines": int64(4), "ncalls": ncalls, "reparse": int64(2), "decoded": int64(0), "dbentries": int64(5), "nsched": int64(c.P(40, 120)), "own": int64(1), "dbempty": int64(1), "dbemptypos": int64(1), "dbpem": int64(2), "pause": int64(1200), "goeson": int64(2)})
 	for k := 0; k < c.N(12, 48) && c.NFailures() < 4; k++ {
 		c19Eval(c, Case{"op": "pure", "path": "authenticode/testdata/test.pecoff", "seed2": int64(100 + k), "nseq": int64(40), "goroutines": int64(2 + k%3), "ncalls": ncalls, "reparse": int64(1 + (k/3)%2), "decoded": int64((k/6 + k) % 2), "dbentries": int64([]int{0, 1, 7, 30}[k%4]),
-			"nsched": int64(0), "own": int64(k % 2), "dbempty": int64(1 + k%2), "dbemptypos": int64((k / 2) % 3), "dbpem": int64([]int{0, 1, 2}[(k/2+k)%3])})
+			"nsched": int64(0), "own": int64(k % 2), "dbempty": int64(1 + k%2), "dbemptypos": int64((k / 2) % 3), "dbpem": int64([]int{0, 1, 2}[(k/2+k)%3]), "goeson": int64(1 + k%5)})
 	}
 }
 
 func init() {
 	register("C19", &PropDef{
-		Rule:   "for each of several signed images (generated layouts and a repository binary; parsed-and-signed in place, re-parsed from its bytes, or re-parsed from bytes whose certificate table ends WITHOUT the alignment padding behind its last WIN_CERTIFICATE - the padding cut off and the directory Size lowered, the signer chosen so that the entry's length is no multiple of 8; the table still is the 8-aligned tail of the file), a database (built through Append, or decoded from an independently encoded stream; its SHA-256 list holds 2..1002 hashes in no particular order, followed by a certificate list; in two of three cases it also holds a list WITHOUT signatures - a SHA-256, SHA-1 or X.509 list the caller emptied in place through its own pointer with SignatureList.RemoveBytes / RemoveSignature, or a new empty list added with AppendList - in front of, between or behind the other lists; every second database also holds, in a list of their own, one or two X.509 entries whose stored bytes are PEM TEXT - which Append / AppendBytes never store but the decoder takes as they are and AppendList takes from a caller who filled the list in by hand: part of the decoded stream, or a hand-built list handed to AppendList) and a signed-update value: before any call the caller notes what the objects expose (img.Datadir; db.Lists = the length of the database, the identity and order of the list objects it holds, every field of every list); the database's Bytes and Marshal are the first calls ever made on it (Bytes, Marshal, Bytes, Marshal, a look at db.Lists after each; both must write the same bytes; the two membership queries for the PEM-shaped entry are asked before the first encoding and between the encodings) and SignEFIVariable, which serialises the database it is given, must leave db.Lists as it was; then the 23 read-only methods (image: Hash, Bytes, Open, Signatures, Verify x2; database: Bytes, Marshal, BytesExists x5 incl. a type whose list is not the first, the last entry of the long list and an X.509 entry asked for by PEM text, SigDataExists, Exists x2 incl. a hand-filled list holding that PEM text; signed update: Marshal, Bytes; its decoded descriptor: Marshal, Verify x2; the same descriptor decoded behind an ALL-ZERO and behind an all-ones timestamp - a blob made without a timestamp, a value built as a literal: Marshal) and the two observations img.Datadir and db.Lists are taken once for reference, then 40 times sequentially in random order, then from 2/4/8/16 goroutines (25..100 random calls each) on the SAME objects; then, on FRESHLY parsed copies of the signed image (one copy per round, parsed from the input the image was parsed from, so that the overlapping calls are the first ever made on the object), each method as the first and only call on a copy of its own must agree with one copy asked for everything in turn, and every ordered pair of the six image methods and 12 random triples are run by two / three goroutines under a deterministic interleaving: the copy is parsed through a caller-supplied io.ReaderAt that makes the goroutines take turns at read granularity (sched.go) - a hand-over at every read; the first call held inside its first read until the second has returned; random turns of 0..3 reads - and every call, and every method once more after the round, must return what the call returns alone on a copy parsed from the same bytes (120 rounds per image); then the caller treats what it was handed as its own: it overwrites the slices returned by Hash, Bytes (image, database, signed update) and the certificate data of the entries listed by Signatures, and for each Marshal (signed update, database, descriptor) it marshals into an empty buffer, resets that buffer and reuses it for other data, marshals behind 3 bytes already in the destination, marshals into two buffers and lets each owner append 8 bytes of its own, and overwrites those destinations in place - after each of which the methods of the object must answer as at first, each destination must hold exactly (its old content,) the first encoding (and its owner's trailer); then every method and observation once more; every result must equal the first, the byte slices returned by the first Hash / Bytes / Marshal calls, held throughout, must still read the same at the end, and a second parse of the input of a re-parsed image, only ever serialised, must give the same Bytes() and Datadir as the image that answered all the calls. Besides the 6 generated images and the repository binary with the full sweep: the repository binary re-parsed without the last padding (40 scheduled rounds) and 12 small runs (no scheduled rounds; 2..4 goroutines) over the product kind of list without signatures x its position x how the other lists came about, the image alternating between the two re-parsed forms; these 13 share one worker process; in one of them the final round of all methods is made after a PAUSE of 1.2 s (the result of a read-only call on an unchanged value is the same whenever the call is made; the long runs spread their calls over several seconds anyway). The worker is the -race build, so any data race aborts the run. Every case is non-trivial; distinct = distinct (image, schedule seed, goroutine count).",
+		Rule:   "for each of several signed images (generated layouts and a repository binary; parsed-and-signed in place, re-parsed from its bytes, or re-parsed from bytes whose certificate table ends WITHOUT the alignment padding behind its last WIN_CERTIFICATE - the padding cut off and the directory Size lowered, the signer chosen so that the entry's length is no multiple of 8; the table still is the 8-aligned tail of the file), a database (built through Append, or decoded from an independently encoded stream; its SHA-256 list holds 2..1002 hashes in no particular order, followed by a certificate list; in two of three cases it also holds a list WITHOUT signatures - a SHA-256, SHA-1 or X.509 list the caller emptied in place through its own pointer with SignatureList.RemoveBytes / RemoveSignature, or a new empty list added with AppendList - in front of, between or behind the other lists; every second database also holds, in a list of their own, one or two X.509 entries whose stored bytes are PEM TEXT - which Append / AppendBytes never store but the decoder takes as they are and AppendList takes from a caller who filled the list in by hand: part of the decoded stream, or a hand-built list handed to AppendList) and a signed-update value: before any call the caller notes what the objects expose (img.Datadir; db.Lists = the length of the database, the identity and order of the list objects it holds, every field of every list); the database's Bytes and Marshal are the first calls ever made on it (Bytes, Marshal, Bytes, Marshal, a look at db.Lists after each; both must write the same bytes; the two membership queries for the PEM-shaped entry are asked before the first encoding and between the encodings) and SignEFIVariable, which serialises the database it is given, must leave db.Lists as it was; then the 23 read-only methods (image: Hash, Bytes, Open, Signatures, Verify x2; database: Bytes, Marshal, BytesExists x5 incl. a type whose list is not the first, the last entry of the long list and an X.509 entry asked for by PEM text, SigDataExists, Exists x2 incl. a hand-filled list holding that PEM text; signed update: Marshal, Bytes; its decoded descriptor: Marshal, Verify x2; the same descriptor decoded behind an ALL-ZERO and behind an all-ones timestamp - a blob made without a timestamp, a value built as a literal: Marshal) and the two observations img.Datadir and db.Lists are taken once for reference, then 40 times sequentially in random order, then from 2/4/8/16 goroutines (25..100 random calls each) on the SAME objects; then, on FRESHLY parsed copies of the signed image (one copy per round, parsed from the input the image was parsed from, so that the overlapping calls are the first ever made on the object), each method as the first and only call on a copy of its own must agree with one copy asked for everything in turn, and every ordered pair of the six image methods and 12 random triples are run by two / three goroutines under a deterministic interleaving: the copy is parsed through a caller-supplied io.ReaderAt that makes the goroutines take turns at read granularity (sched.go) - a hand-over at every read; the first call held inside its first read until the second has returned; random turns of 0..3 reads - and every call, and every method once more after the round, must return what the call returns alone on a copy parsed from the same bytes (120 rounds per image); then the caller treats what it was handed as its own: it overwrites the slices returned by Hash, Bytes (image, database, signed update) and the certificate data of the entries listed by Signatures, and for each Marshal (signed update, database, descriptor) it marshals into an empty buffer, resets that buffer and reuses it for other data, marshals behind 3 bytes already in the destination, marshals into two buffers and lets each owner append 8 bytes of its own, and overwrites those destinations in place - after each of which the methods of the object must answer as at first, each destination must hold exactly (its old content,) the first encoding (and its owner's trailer); then every method and observation once more; every result must equal the first, the byte slices returned by the first Hash / Bytes / Marshal calls, held throughout, must still read the same at the end, and a second parse of the input of a re-parsed image, only ever serialised, must give the same Bytes() and Datadir as the image that answered all the calls. AT THE VERY END OF EVERY RUN THE CALLER GOES ON with the other things it holds - it changes the Time of, and decodes another descriptor into, the descriptor struct that SignEFIVariable returned next to the signed-update value, appends the next hash to the database object that was signed, signs the next update from that object, removes an entry (five steps, the first one rotating with the case) - none of which is a call on the signed-update value: after every step Marshal and Bytes of the value must return the bytes of every earlier call. Besides the 6 generated images and the repository binary with the full sweep: the repository binary re-parsed without the last padding (40 scheduled rounds) and 12 small runs (no scheduled rounds; 2..4 goroutines) over the product kind of list without signatures x its position x how the other lists came about, the image alternating between the two re-parsed forms; these 13 share one worker process; in one of them the final round of all methods is made after a PAUSE of 1.2 s (the result of a read-only call on an unchanged value is the same whenever the call is made; the long runs spread their calls over several seconds anyway). The worker is the -race build, so any data race aborts the run. Every case is non-trivial; distinct = distinct (image, schedule seed, goroutine count).",
 		Assume: []string{"data-race freedom under the Go memory model is a runtime fact: the race detector observes the schedules that happen to occur in the sampled runs"},
 		Eval:   c19Eval, Gen: c19Gen,
 	})
